@@ -6,7 +6,7 @@ import ast
 from typing import Dict, List, Optional, Tuple
 
 from .. import tables
-from ..astx import calls_in, f_or, f_show, FALSE, linear, single_assign_value, src, walk_no_nested
+from ..astx import calls_in, f_or, f_show, FALSE, implies, linear, single_assign_value, src, walk_no_nested
 from ..core import AnalysisError, ClassInfo, Ctx, Repo, rule
 from ..region import Unknown, minieval
 
@@ -284,6 +284,18 @@ def c14_4(ctx: Ctx):
     ctx.check("for field, encoder in self._fields_and_encoders():" in t and "encoder.validate(value, ptr_size)" in t and "raise ValueError" in t, vf, vf.node,
               "_validate runs every field's encoder.validate and re-raises ValueError", "_validate changed")
     ctx.check("except ValueError" in t, vf, vf.node, "only ValueError is converted", "exception conversion changed")
+    # every field, every time: no skip inside the loop, and the validate call is not under a condition
+    vlin = linear(vf.node)
+    loops = [n for n in walk_no_nested(vf.node) if isinstance(n, ast.For) and "_fields_and_encoders()" in src(n.iter)]
+    vcalls = [(g, c) for g, c in vlin.all_calls() if isinstance(c.func, ast.Attribute) and c.func.attr == "validate" and loops and loops[0] in g.loops]
+    if len(loops) != 1 or not vcalls:
+        raise AnalysisError("_validate: loop over _fields_and_encoders() with an encoder.validate call not found")
+    skips = [n for n in ast.walk(loops[0]) if isinstance(n, (ast.Continue, ast.Break, ast.Return))]
+    ctx.check(not skips and all(g.nest == 1 and implies(next(x for x in vlin.stmts if loops[0] in x.loops).guard, g.guard) for g, _ in vcalls), vf, (skips or [loops[0]])[0],
+              "_validate checks every field on every call (no skip, no condition in the loop)",
+              "some fields are no longer validated on some calls (a `continue`/condition inside the loop): the objects are mutable dataclasses, so an operand reassigned after construction "
+              "(`op.register = 40`) reaches encode() unchecked - a fused operand silently becomes a different opcode (DW_OP_reg40 -> 0x78 = DW_OP_breg8), fixed-size operands die with OverflowError "
+              "instead of ValueError", key="_validate::every-field")
 
 
 @rule("C14.5", ["C14", "C15"], "encode and decode walk the same fields in the same order; byte counts add up", 7)
